@@ -37,7 +37,8 @@ pub trait Prop: Sync + Send {
     }
     /// per-case watchdog
     fn case_timeout(&self) -> Duration {
-        Duration::from_secs(240)
+        // in-memory cases take milliseconds; a minute without returning is a hang
+        Duration::from_secs(60)
     }
     /// worker threads (the rig-based properties want fewer)
     fn max_threads(&self) -> usize {
